@@ -232,10 +232,20 @@ func c04Case(ctx *Ctx, s1, s2 *TableSpec, cfg1, cfg2 IngestCfg, tags ...string) 
 
 // windowShapes: two keyed tables of several blocks whose block boundaries relate in varied ways
 // (one block of a table spanning several of the other's, nested tails, dense prefix + sparse tail).
-func windowShapes(r *rand.Rand) (*TableSpec, *TableSpec) {
+//
+// variant 1: a composite key (g,k) whose first column takes 1..4 values, so that block boundaries
+// fall where the first key column ties and only the second decides; variant 2: the same rows
+// without a primary key (the whole row is the key).
+func windowShapes(r *rand.Rand, variant int) (*TableSpec, *TableSpec) {
 	k := 520 + r.Intn(700)
+	regions := 1 + r.Intn(4)
 	mk := func(keep func(i int) bool, mod func(i int) bool) *TableSpec {
 		t := &TableSpec{Columns: []string{"k", "v"}, PK: []string{"k"}}
+		if variant == 1 {
+			t = &TableSpec{Columns: []string{"g", "k", "v"}, PK: []string{"g", "k"}}
+		} else if variant == 2 {
+			t = &TableSpec{Columns: []string{"g", "k", "v"}, PK: nil}
+		}
 		for _, i := range r.Perm(k) {
 			if !keep(i) {
 				continue
@@ -244,7 +254,11 @@ func windowShapes(r *rand.Rand) (*TableSpec, *TableSpec) {
 			if mod(i) {
 				v = "y"
 			}
-			t.Rows = append(t.Rows, []string{fmt.Sprintf("%05d", i), v})
+			if variant == 0 {
+				t.Rows = append(t.Rows, []string{fmt.Sprintf("%05d", i), v})
+			} else {
+				t.Rows = append(t.Rows, []string{fmt.Sprintf("r%d", i*regions/k), fmt.Sprintf("%05d", i), v})
+			}
 		}
 		return t
 	}
@@ -280,9 +294,10 @@ func runC04(ctx *Ctx) {
 		runC04CLI(ctx)
 		return
 	}
-	if r.Intn(4) == 0 {
-		s1, s2 := windowShapes(r)
-		c04Case(ctx, s1, s2, IngestCfg{}, IngestCfg{}, "mode=window-shapes")
+	if ctx.Idx%4 == 1 {
+		variant := (ctx.Idx / 4) % 3
+		s1, s2 := windowShapes(r, variant)
+		c04Case(ctx, s1, s2, IngestCfg{}, IngestCfg{}, fmt.Sprintf("mode=window-shapes-%d", variant))
 		return
 	}
 	maxBlocks := 2
